@@ -107,6 +107,36 @@ macro_rules! run_op {
     (@assign no, $v:ident, $tr:ident :: $m:ident, $a:expr, $b:expr) => {};
 }
 
+/// `&a op &a` with both references pointing at the SAME object, next to the same call
+/// with a second object of identical content (on the heap, so the addresses differ)
+macro_rules! alias_op {
+    ($op:expr, $a:expr, $n:expr) => {{
+        let a: Decimal = $a;
+        let c: Box<Decimal> = Box::new(a);
+        let c: &Decimal = &c;
+        let n: u8 = $n;
+        let r: Option<(Out, Out)> = match $op {
+            0 => Some((op(|| Add::add(&a, &a)), op(|| Add::add(&a, c)))),
+            1 => Some((op(|| Sub::sub(&a, &a)), op(|| Sub::sub(&a, c)))),
+            2 => Some((op(|| Mul::mul(&a, &a)), op(|| Mul::mul(&a, c)))),
+            3 => Some((op(|| Div::div(&a, &a)), op(|| Div::div(&a, c)))),
+            4 => Some((op(|| Rem::rem(&a, &a)), op(|| Rem::rem(&a, c)))),
+            5 => Some((opt(|| CheckedAdd::checked_add(&a, &a)), opt(|| CheckedAdd::checked_add(&a, c)))),
+            6 => Some((opt(|| CheckedSub::checked_sub(&a, &a)), opt(|| CheckedSub::checked_sub(&a, c)))),
+            7 => Some((opt(|| CheckedMul::checked_mul(&a, &a)), opt(|| CheckedMul::checked_mul(&a, c)))),
+            8 => Some((opt(|| CheckedDiv::checked_div(&a, &a)), opt(|| CheckedDiv::checked_div(&a, c)))),
+            9 => Some((opt(|| CheckedRem::checked_rem(&a, &a)), opt(|| CheckedRem::checked_rem(&a, c)))),
+            10 => Some((op(|| DivRounded::div_rounded(&a, &a, n)), op(|| DivRounded::div_rounded(&a, c, n)))),
+            11 => Some((op(|| Quantize::quantize(&a, &a)), op(|| Quantize::quantize(&a, c)))),
+            12 => Some((op(|| MulRounded::mul_rounded(&a, &a, n)), op(|| MulRounded::mul_rounded(&a, c, n)))),
+            13 => Some((b2o(catch(|| PartialEq::eq(&a, &a))), b2o(catch(|| PartialEq::eq(&a, c))))),
+            14 => Some((b2o(catch(|| PartialOrd::lt(&a, &a))), b2o(catch(|| PartialOrd::lt(&a, c))))),
+            _ => None,
+        };
+        r
+    }};
+}
+
 fn impl_label(op: u8, ty: Option<u8>, left: bool) -> &'static str {
     // a static label per (operation, integer type, position) - 15 * (1 + 9*2) combinations
     static LABELS: std::sync::OnceLock<Vec<&'static str>> = std::sync::OnceLock::new();
@@ -167,7 +197,7 @@ impl Prop for C17 {
     }
     fn rule(&self) -> String {
         "Generated: (operation in {+,-,*,/,%, checked_add/sub/mul/div/rem, div_rounded, quantize, mul_rounded, ==, <}, Decimal d, second operand a Decimal or an integer of any of the 9 types on the left or right, n in 0..=18 (and > 18), thread-default mode). \
-         For each case every stamped form of the chosen (operation, type, position) is executed explicitly (a op b, &a op b, a op &b, &a op &b, a op= b, a op= &b) and compared with the by-value form; the by-value integer form is compared with the same operation on Decimal::from(i): same value and same panic/None class (for + and - also the same scale), \
+         For each case every stamped form of the chosen (operation, type, position) is executed explicitly (a op b, &a op b, a op &b, &a op &b, a op= b, a op= &b) and compared with the by-value form; for Decimal/Decimal operations &a op &a is also executed with both references to the same object and compared with the same call on two equal objects; the by-value integer form is compared with the same operation on Decimal::from(i): same value and same panic/None class (for + and - also the same scale), \
          with the stated exception that Decimal*Decimal short-cuts an operand equal to one. A label per (operation, type, position) records which of the macro-generated impl families were executed; all must be non-zero. \
          Non-trivial: integer operand not in {0, 1} and the Decimal has fractional digits. Distinct: hash of the case."
             .into()
@@ -217,7 +247,7 @@ impl Prop for C17 {
         .boxed()
     }
     fn mandatory_labels(&self, _tier: Tier) -> Vec<&'static str> {
-        let mut v = vec!["value-agree", "signal-agree", "one-exception"];
+        let mut v = vec!["value-agree", "signal-agree", "one-exception", "aliased-operands"];
         for (oi, _) in OPS.iter().enumerate() {
             if oi == 12 {
                 v.push(impl_label(12, None, false));
@@ -305,6 +335,15 @@ impl Prop for C17 {
                 let mut v = run_op!(opi, dd, yd, n, assign: yes);
                 if opi == 12 {
                     v.extend(rforms!(MulRounded::mul_rounded, dd, yd, n));
+                }
+                // both references to one object: must behave like two equal objects
+                if let Some((aliased, distinct)) = alias_op!(opi, dd, n) {
+                    ctx.sub();
+                    ctx.label("aliased-operands");
+                    ctx.note(|| format!("{opname}(&a, &a) with a = {:?}: same object {aliased}, equal objects {distinct}", case.d));
+                    if !aliased.same(&distinct) {
+                        ctx.fail("C17/aliased-operands-differ", format!("{case:?} {opname}: &a op &a with both references to the same object gives {aliased}, with two equal objects {distinct}"));
+                    }
                 }
                 (v, Vec::new())
             }
